@@ -33,6 +33,12 @@ LABREA.LOGGING.DISABLED / labrea.logging.disabled()) - the full 5 x 3 x 3 cross 
       evaluation (the switches are read from the dictionary's CONTENT at each evaluation).  This
       family is compared with the model too (the model sees the same dictionaries).
 
+   K  (family `kinds`) the LABREA section and its CACHE / EFFECTS / LOGGING subsections given as other
+      legitimate kinds of mapping (a dict subclass, OrderedDict, defaultdict, ChainMap in several layerings,
+      UserDict, a user collections.abc.Mapping, MappingProxyType where the unchanged library evaluates such
+      options at all): all clauses above apply, and the history is indistinguishable from the same history
+      with the same sections spelled as plain dicts.  Compared with the model too (same content).
+
 Two further scenario families, compared with the property's oracle only (Model/Eval.v reads the
 switches with a raw lookup - `flag_at`: no template resolution - and has no log effect):
   forms   switch values given as option templates ('{K40}', chains, dotted references) resolving
@@ -408,6 +414,127 @@ def make_direct_scenario(rng, i, n_ops, configs):
                 effect_kind="plain", reads_switch=False, family="direct", modelled=True, inplace=True, shapes=shapes)
 
 
+# ----------------------------------------------------------------------------- family `kinds`:
+# the LABREA section / its subsections as other kinds of mapping (Options = Mapping[str, JSON])
+
+# What the UNCHANGED library honours (established on /repo, every switch, datasets and bare wrappers alike): every
+# kind below as the LABREA section, as a subsection, or both.  Two limits of the library that are not switch
+# behaviour and stay outside: (a) options holding a types.MappingProxyType ANYWHERE cannot be evaluated by a dataset
+# at all, nor (in some positions) by WithOptions (deepcopy / confectioner.mix's copy.copy: "cannot pickle 'mappingproxy'
+# object"), so that kind is used only by expressions without a dataset / WithOptions / Map node;
+# (b) a defaultdict WITH a default factory "has" every key: as the CACHE subsection it answers the DISABLED
+# spelling with the factory's (falsy) value, which shadows DISABLE like an explicit false does; the factory form
+# is used at the section level only (there the made-up subsections are empty mappings).
+MAP_KINDS = ["subclass", "OrderedDict", "defaultdict", "ChainMap-front", "ChainMap-back", "ChainMap-split",
+             "ChainMap-shadow", "UserDict", "Mapping", "MappingProxy"]
+SECTION_ONLY_KINDS = ["defaultdict-factory"]
+
+
+def to_kind(d, kind):
+    """the mapping `d` (a dict, values already converted) as a mapping of another kind with the same content"""
+    import collections
+    import collections.abc
+    import types
+    if kind is None or kind == "dict":
+        return d
+    if kind == "subclass":
+        return type("VerifOptionsDict", (dict,), {})(d)
+    if kind == "OrderedDict":
+        return collections.OrderedDict(d)
+    if kind == "defaultdict":
+        return collections.defaultdict(None, d)
+    if kind == "defaultdict-factory":
+        return collections.defaultdict(dict, d)
+    if kind == "ChainMap-front":
+        return collections.ChainMap(dict(d), {})
+    if kind == "ChainMap-back":
+        return collections.ChainMap({}, dict(d))
+    if kind == "ChainMap-split":        # the entries spread over three layers
+        ks = list(d)
+        return collections.ChainMap({k: d[k] for k in ks[0::2]}, {}, {k: d[k] for k in ks[1::2]})
+    if kind == "ChainMap-shadow":       # a front layer over defaults saying the contrary (front wins)
+        def contrary(v):
+            if isinstance(v, bool):
+                return not v
+            if isinstance(v, int):
+                return 0 if v else 1
+            return {}
+        return collections.ChainMap(dict(d), {k: contrary(v) for k, v in d.items()})
+    if kind == "UserDict":
+        return collections.UserDict(d)
+    if kind == "MappingProxy":
+        return types.MappingProxyType(dict(d))
+    if kind == "Mapping":
+        class VerifMapping(collections.abc.Mapping):
+            def __init__(self, data):
+                self._data = dict(data)
+
+            def __getitem__(self, key):
+                return self._data[key]
+
+            def __iter__(self):
+                return iter(self._data)
+
+            def __len__(self):
+                return len(self._data)
+        return VerifMapping(d)
+    raise AssertionError(kind)
+
+
+def apply_kinds(po, spec):
+    """po: python options (plain dicts); spec: (section kind, {subsection name: kind}) -> a new top-level dict whose
+    LABREA section / subsections are mappings of those kinds (same content)"""
+    name = core.name_of(LAB)
+    if not spec or not isinstance(po.get(name), dict):
+        return po
+    sec_kind, sub_kinds = spec
+    sec = {}
+    for k, v in po[name].items():
+        sec[k] = to_kind(dict(v), sub_kinds.get(k)) if isinstance(v, dict) else v
+    out = dict(po)
+    out[name] = to_kind(sec, sec_kind)
+    return out
+
+
+def kinds_config_stream(rng):
+    """switch configurations with the emphasis on the switches that live IN the dictionary"""
+    while True:
+        yield (rng.choice(["DISABLED", "DISABLE", "DISABLED", "DISABLE", "on", "on", "ctx", "nocache"]),
+               rng.choice(["option", "option", "on", "toggle"]), rng.choice(["option", "option", "on", "ctx"]))
+
+
+def reaches_dataset(scn, idx):
+    """does expression idx of the scenario contain a dataset / WithOptions / Map node: their options go through
+    confectioner.mix, which copies values (limit (a) above applies)"""
+    return any(t and t[0] in ("dataset", "with", "map") for t in cp.sub_exprs(scn["exprs"][idx]))
+
+
+def make_kinds_scenario(rng, i, n_ops):
+    """a `forms` history without templates (datasets, one dictionary) or a `direct` history (bare wrappers, a fresh
+    dictionary object per evaluation) whose LABREA sections / subsections are mappings of other kinds: one kind for
+    the whole history (two histories in three) or a kind per operation and per (sub)section"""
+    configs = kinds_config_stream(rng)
+    if i % 3 == 2:
+        scn = make_direct_scenario(rng, i, n_ops, configs)
+        scn["inplace"] = False
+    else:
+        scn = make_forms_scenario(rng, 3 * i, n_ops, configs)
+        assert scn["modelled"]
+    subs = [core.name_of(a) for a in (CACHE, EFFECTS, LOGGING)]
+    fixed = MAP_KINDS[(i // 3) % len(MAP_KINDS)] if i % 3 != 1 else None
+    where = ("section", "subsections", "both")[(i // 2) % 3]
+    kinds = []
+    for op in scn["ops"]:
+        pool = [k for k in MAP_KINDS if k != "MappingProxy" or not reaches_dataset(scn, op[1])]
+        if fixed is not None:
+            k = fixed if fixed in pool else "Mapping"
+            kinds.append((k if where != "subsections" else None, {n: k for n in subs} if where != "section" else {}))
+            continue
+        sk = rng.choice(pool + SECTION_ONLY_KINDS + [None, None])
+        kinds.append((sk, {n: rng.choice(pool + [None, None]) for n in subs if rng.random() < 0.7}))
+    return dict(scn, family="kinds", kinds=kinds)
+
+
 def morph(dst, src, depth=0):
     """rewrite the dictionary object `dst` IN PLACE so that it equals `src` (same key order): the object
     itself persists, and so do the dictionary objects of the LABREA section below it (the switches flip
@@ -577,6 +704,8 @@ def _run_impl16(scn, twin=False):
                     ds.enable_effects()
                 ds.set_cache(NoCache() if dsid in noc else orig_cache[dsid])
             po = core.py_json(o)
+            if scn.get("kinds") and not twin:
+                po = apply_kinds(po, scn["kinds"][k])
             if scn.get("inplace"):
                 # ONE caller dictionary object for the whole history, rewritten in place between operations
                 po = morph(state.setdefault("po", {}), po)
@@ -674,7 +803,7 @@ def fresh_reference(scn, op, ex, cache_via):
         lab[CACHE] = {DISABLED: True}
         o2 = dict(o2)
         o2[LAB] = lab
-    one = dict(scn, ops=[(m, i, cache_via == "ctx", lc, o2)], extra=[(ex[0], ())], cfgs=[None])
+    one = dict(scn, ops=[(m, i, cache_via == "ctx", lc, o2)], extra=[(ex[0], ())], cfgs=[None], kinds=None)
     return run_impl16(one)[0]
 
 
@@ -690,8 +819,8 @@ def effects_pair(scn, op):
         o_tog[LAB] = lab
     else:
         o_tog.pop(LAB, None)
-    a = run_impl16(dict(scn, ops=[(m, i, cc, lc, o_opt)], extra=[((), ())], cfgs=[None]))[0]
-    b = run_impl16(dict(scn, ops=[(m, i, cc, lc, o_tog)], extra=[(tuple(scn["env"]), ())], cfgs=[None]))[0]
+    a = run_impl16(dict(scn, ops=[(m, i, cc, lc, o_opt)], extra=[((), ())], cfgs=[None], kinds=None))[0]
+    b = run_impl16(dict(scn, ops=[(m, i, cc, lc, o_tog)], extra=[(tuple(scn["env"]), ())], cfgs=[None], kinds=None))[0]
     return a, b
 
 
@@ -706,12 +835,14 @@ def strip_cache_switch(o):
     return o2
 
 
-def oracle(scn, obs=None, tw=None, fresh=None):
+def oracle(scn, obs=None, tw=None, fresh=None, plain=None):
     """the property's statement evaluated on the implementation; returns (failures, counters)"""
     obs = obs if obs is not None else run_impl16(scn)
     tw = tw if tw is not None else run_impl16(scn, twin=True)
     if scn.get("inplace") and fresh is None:
         fresh = run_impl16(dict(scn, inplace=False))
+    if scn.get("kinds") and plain is None:
+        plain = run_impl16(dict(scn, kinds=None))
     ceff = comp_effect_fids(scn)
     fails = []
     cnt = dict(value_checks=0, cache_off_ops=0, nocache_ops=0, effect_off_ops=0, log_off_ops=0,
@@ -746,6 +877,19 @@ def oracle(scn, obs=None, tw=None, fresh=None):
                 bad("one options dictionary object rewritten in place between evaluations: the operation differs from the same "
                     "operation of the same history given a fresh dictionary object each time", method=m, differs_in=diff,
                     got={k: vi[k] for k in diff}, fresh_objects={k: vf[k] for k in diff})
+        # ---- K: the switches are read from the CONTENT of the LABREA section, whatever kind of mapping holds it: the
+        # history is the history with the same sections given as plain dicts
+        if plain is not None:
+            cnt["kinds_ops"] = cnt.get("kinds_ops", 0) + 1
+
+            def view_k(x):
+                return dict(line=x["line"], requests=[r[:3] for r in x["reqs"]], records=list(x["records"]), stored=x["cache_changed"])
+            vk, vp = view_k(a), view_k(plain[j])
+            if vk != vp:
+                diff = [k for k in vk if vk[k] != vp[k]]
+                bad("LABREA section / subsections given as another kind of mapping: the operation differs from the same operation of "
+                    "the same history with the sections given as plain dicts", method=m, kinds=repr(scn["kinds"][j]), differs_in=diff,
+                    got={k: vk[k] for k in diff}, plain_dicts={k: vp[k] for k in diff})
         # ---- O: every switch of every operation so far is off (however the off switches are written):
         # this IS the all-switches-off history - same outcome, user code, cache traffic, requests, records
         all_off_so_far = all_off_so_far and tuple(cfg) == ("on", "on", "on") and not ex[0] and not ex[1] and not cc and not lc
@@ -882,7 +1026,7 @@ def oracle(scn, obs=None, tw=None, fresh=None):
         if any(x.startswith("set") for x in a["calls"]):
             warm = True
     # per operation, the specific clauses first (the comparison with fresh dictionary objects last)
-    fails.sort(key=lambda f: (f["op_index"], f["what"].startswith("one options dictionary object")))
+    fails.sort(key=lambda f: (f["op_index"], f["what"].startswith(("one options dictionary object", "LABREA section / subsections given"))))
     return fails, cnt
 
 
@@ -910,7 +1054,8 @@ def twin_scn(scn):
 # ----------------------------------------------------------------------------- run
 
 def correspondence16(ctx, scns, name, obs_all):
-    outs = ctx.coq_eval(name, cp.REQ, "", [coq_scenario16(s) for s in scns], shard=30)
+    outs = ctx.coq_eval(name, cp.REQ, "", [coq_scenario16(s) for s in scns], shard=30,
+                        **({} if ctx.quick else {"jobs": 8}))     # (thorough: at most 8 coqc at a time, ~0.5 GB each)
     models = [o.split(" ## ") for o in outs]
     mism = []
     stats = {"ops": 0, "ok": 0, "err": 0, "unmodelled": 0, "dirty_ops": 0, "cache_hits": 0, "by_method": {}, "by_config": {}}
@@ -965,7 +1110,7 @@ def tag_value_failures(ctx, cands):
 
 
 def slim(scn):
-    return {k: scn[k] for k in ("ftable", "env", "exprs", "ops", "extra", "cfgs", "effect_kind", "reads_switch", "family", "modelled", "inplace", "shapes") if k in scn}
+    return {k: scn[k] for k in ("ftable", "env", "exprs", "ops", "extra", "cfgs", "effect_kind", "reads_switch", "family", "modelled", "inplace", "shapes", "kinds") if k in scn}
 
 
 def run(ctx):
@@ -980,10 +1125,16 @@ def run(ctx):
     logfx = [make_logfx_scenario(rng, i, n_ops, configs) for i in range(n_logfx)]
     n_direct = 150 if ctx.quick else 1500
     direct = [make_direct_scenario(rng, i, n_ops, configs) for i in range(n_direct)]
-    scns = scns + forms + logfx + direct
+    # (drawn after every earlier family, from a generator of its own: those stay what they were for a given seed)
+    import random as _random
+    krng = _random.Random(ctx.seed * 977 + 16)
+    n_kinds = 90 if ctx.quick else 900
+    kinds = [make_kinds_scenario(krng, i, n_ops) for i in range(n_kinds)]
+    scns = scns + forms + logfx + direct + kinds
     obs_all = [run_impl16(s) for s in scns]
     tw_all = [run_impl16(s, twin=True) for s in scns]
     fresh_all = [run_impl16(dict(s, inplace=False)) if s.get("inplace") else None for s in scns]
+    plain_all = [run_impl16(dict(s, kinds=None)) if s.get("kinds") else None for s in scns]
     # model vs implementation: everything the model can express (not: templated switch values, log effects)
     in_model = [k for k, s in enumerate(scns) if s.get("modelled", True)]
     models_m, mism, stats = correspondence16(ctx, [scns[k] for k in in_model], "Cases_C16", [obs_all[k] for k in in_model])
@@ -993,8 +1144,8 @@ def run(ctx):
     violations, cands = [], []
     totals, distinct, seen_cfg = {}, set(), set()
     by_family = {}
-    for s, obs, tw, ml, fr in zip(scns, obs_all, tw_all, models, fresh_all):
-        fails, cnt = oracle(s, obs, tw, fr)
+    for s, obs, tw, ml, fr, pl in zip(scns, obs_all, tw_all, models, fresh_all, plain_all):
+        fails, cnt = oracle(s, obs, tw, fr, pl)
         fam = by_family.setdefault(s.get("family", "base"), dict(scenarios=0, ops=0, modelled_scenarios=0, oracle_failures=0))
         fam["scenarios"] += 1
         fam["ops"] += len(s["ops"])
@@ -1039,7 +1190,13 @@ def run(ctx):
                 "without switches), the rest draws the cross product; the third without templates is compared with the model too. "
                 f"logfx ({n_logfx} histories on one dictionary each): datasets carrying 1-2 labrea.logging.LogEffect effects and Logged wrappers at "
                 "DEBUG / INFO / 25 / WARNING / ERROR / CRITICAL, a third of the operations with effects on and logging disabled by option or "
-                "context (nothing may be emitted), the rest from the cross product; oracle only",
+                "context (nothing may be emitted), the rest from the cross product; oracle only. "
+                f"kinds ({n_kinds} histories): the LABREA section and / or its CACHE / EFFECTS / LOGGING subsections given as a dict subclass, "
+                "OrderedDict, defaultdict, ChainMap (entries in the front layer, in the back layer, spread over three layers, a front layer "
+                "over contrary defaults), UserDict, a user collections.abc.Mapping, MappingProxyType (graphs without a dataset only), one kind "
+                "per history or per operation and (sub)section, on dataset graphs (one dictionary per history) and on bare Cached / "
+                "Computation / Logged wrappers; switch configurations drawn with the emphasis on the option spellings; every clause applies, "
+                "plus K: indistinguishable from the same history with plain dict sections; compared with the model too (same content)",
         "samples": [dict(exprs=repr(s["exprs"])[:300], configs=[("/".join(c)) for c in s["cfgs"][:4]], observed=[x["line"] for x in obs[:4]])
                     for s, obs in list(zip(scns, obs_all))[:3]],
         "traces_validated_against_impl": stats["ops"],
